@@ -331,3 +331,99 @@ func keyReuse(op *ast.OperationDefinition, tags map[string]bool) {
 	}
 	walk(op.SelectionSet)
 }
+
+// routeFacts adds ownership-aware facts (route = the gateway's routing table, captured before any answer is
+// looked at): which selections below an abstract-typed field need another service than the one that answers
+// that field.  Only these are the inputs of KF-08 / KF-12; member fragments and interface-level fields whose
+// fields all live at the answering service are forwarded as they are.
+func routeFacts(s *ast.Schema, op *ast.OperationDefinition, route func(typ, field string) (string, bool), tags map[string]bool) {
+	isAbs := func(d *ast.Definition) bool { return d != nil && (d.Kind == ast.Interface || d.Kind == ast.Union) }
+	var walk func(set ast.SelectionSet, parent *ast.Definition, cur string)
+	memberFields := func(set ast.SelectionSet, tc *ast.Definition, cur string) {
+		var rec func(set ast.SelectionSet)
+		rec = func(set ast.SelectionSet) {
+			for _, sel := range set {
+				switch x := sel.(type) {
+				case *ast.Field:
+					if x.Name == "id" || x.Name == "__typename" {
+						continue
+					}
+					if u, ok := route(tc.Name, x.Name); ok && u != cur {
+						tags["f:member-fragment-foreign"] = true
+					}
+				case *ast.InlineFragment:
+					if x.TypeCondition == "" || x.TypeCondition == tc.Name {
+						rec(x.SelectionSet)
+					}
+				case *ast.FragmentSpread:
+					if x.Definition != nil && x.Definition.TypeCondition == tc.Name {
+						rec(x.Definition.SelectionSet)
+					}
+				}
+			}
+		}
+		rec(set)
+	}
+	walk = func(set ast.SelectionSet, parent *ast.Definition, cur string) {
+		if parent == nil {
+			return
+		}
+		for _, sel := range set {
+			switch x := sel.(type) {
+			case *ast.Field:
+				if x.Name == "__typename" || x.Definition == nil || x.Definition.Type == nil {
+					continue
+				}
+				owner := cur
+				if isAbs(parent) {
+					if x.Name != "id" {
+						for _, pt := range s.PossibleTypes[parent.Name] {
+							if u, ok := route(pt.Name, x.Name); ok && u != cur {
+								tags["f:interface-level-field-foreign"] = true
+							}
+						}
+					}
+				} else if u, ok := route(parent.Name, x.Name); ok {
+					owner = u
+				}
+				if x.SelectionSet != nil {
+					walk(x.SelectionSet, s.Types[x.Definition.Type.Name()], owner)
+				}
+			case *ast.InlineFragment:
+				tc := parent
+				if x.TypeCondition != "" {
+					tc = s.Types[x.TypeCondition]
+				}
+				if tc == nil {
+					continue
+				}
+				if isAbs(parent) && tc.Kind == ast.Object {
+					memberFields(x.SelectionSet, tc, cur)
+				}
+				walk(x.SelectionSet, tc, cur)
+			case *ast.FragmentSpread:
+				if x.Definition == nil {
+					continue
+				}
+				tc := s.Types[x.Definition.TypeCondition]
+				if tc == nil {
+					continue
+				}
+				if isAbs(parent) && tc.Kind == ast.Object {
+					memberFields(x.Definition.SelectionSet, tc, cur)
+				}
+				walk(x.Definition.SelectionSet, tc, cur)
+			}
+		}
+	}
+	var root *ast.Definition
+	switch op.Operation {
+	case ast.Query:
+		root = s.Query
+	case ast.Mutation:
+		root = s.Mutation
+	case ast.Subscription:
+		root = s.Subscription
+	}
+	walk(op.SelectionSet, root, "")
+}
